@@ -19,6 +19,8 @@ FILE_PROPS = {
     'expressions/unary.py': ['C01'], 'expressions/has_attr.py': ['C01'], 'expressions/indented_string.py': ['C01', 'C02'],
 }
 
+for _f, _ps in FILE_PROPS.items():          # layout-changing mutants of the rendering code are C02's business (canonical sources byte for byte)
+    if _f.startswith('expressions/') and 'C02' not in _ps and _f not in ('expressions/identifier.py', 'expressions/scope.py', 'expressions/path.py', 'expressions/import_expression.py'): _ps.append('C02')
 CMP = {ast.Eq: ast.NotEq, ast.NotEq: ast.Eq, ast.Lt: ast.LtE, ast.LtE: ast.Lt, ast.Gt: ast.GtE, ast.GtE: ast.Gt, ast.Is: ast.IsNot, ast.IsNot: ast.Is, ast.In: ast.NotIn, ast.NotIn: ast.In}
 
 class Sites(ast.NodeVisitor):
